@@ -565,6 +565,9 @@ func Schemas07(thorough bool) *Set {
 		}
 	}
 	regexForms(s, false)
+	// $dynamicRef / $dynamicAnchor / $anchor are unknown keywords in draft-07: no reference, no anchor
+	s.Add("Psib", `{"definitions":{"d":{"type":"integer"}},"properties":{"a":{"$dynamicRef":"#/definitions/d"}},"items":{"$dynamicRef":"#/nope"}}`)
+	s.Add("Psib", `{"definitions":{"d":{"$id":"#k","type":"integer","$dynamicRef":"#k"},"e":{"$anchor":"k","$dynamicAnchor":"k","type":"string"}},"properties":{"a":{"$ref":"#k"}},"additionalProperties":{"$dynamicRef":"#k"}}`)
 	// an $id that ends in an empty fragment ("...#", the spelling of the draft-07 meta-schema) names a
 	// resource like the same URI without it: references by URI reach it, pointers below it start there
 	s.Add("Pref", `{"definitions":{"d":{"$id":"http://h/d.json#","type":"integer"}},"allOf":[{"$ref":"http://h/d.json"}]}`)
